@@ -154,6 +154,7 @@ func runMassiveMkdir(c Case) []Diff {
 	defer os.RemoveAll(jail)
 	populate(jail, c.Pre)
 	target := c.targetIn(jail)
+	cwdCheck := guardWorkDir(c)
 	opts := append([]gtree.Option{gtree.WithTargetDir(target), gtree.WithFileExtensions(c.Exts), gtree.WithMassive(context.Background())}, strayOpts(c)...)
 	if c.Dry {
 		opts = append(opts, gtree.WithDryRun())
@@ -191,7 +192,7 @@ func runMassiveMkdir(c Case) []Diff {
 	}
 	_ = written
 	realv := "fs=" + strings.Join(snapshot(jail), ",") + " e=" + classify(err)
-	d := confinement(c, realv)
+	d := append(confinement(c, realv), cwdCheck()...)
 	nameErr := func(e error) bool { k := errClass(classify(e)); return k == "invalidname" || k == "invalidpath" }
 	if nameErr(serr) != nameErr(err) {
 		d = append(d, Diff{What: "massive mkdir and simple mkdir disagree about the names", Real: "massive: " + classify(err), Model: "simple: " + classify(serr)})
